@@ -76,8 +76,8 @@ func cmonRun(t *testing.T, sp cmonSpec) {
 
 func TestVerifC18(t *testing.T) {
 	cmonRun(t, cmonSpec{prop: "C18", part: "conservation", profile: "money", stream: 18,
-		owned: map[string]bool{"supply-changed": true, "totals-all-changed": true},
-		rule:  "HL histories weighted toward closes, fee-heavy groups, inner payments/closes from apps, keyreg eligibility fees, proposer payouts, rewards-level changes; on every committed block the sum over ALL accounts of balance incl. pending rewards must equal the sum before the block, and the ledger's Totals(r).All() must be the same constant; distinct = distinct multisets of transaction kinds per block",
+		owned:   map[string]bool{"supply-changed": true, "totals-all-changed": true},
+		rule:    "HL histories weighted toward closes, fee-heavy groups, inner payments/closes from apps, keyreg eligibility fees, proposer payouts, rewards-level changes; on every committed block the sum over ALL accounts of balance incl. pending rewards must equal the sum before the block, and the ledger's Totals(r).All() must be the same constant; distinct = distinct multisets of transaction kinds per block",
 		require: map[string]int64{"audit.supply_checked": 100, "gen.accepted:payclose": 3, "gen.accepted:inner": 3},
 		extra: func(s *hlSim, vb *ledgercore.ValidatedBlock) {
 			r := vb.Block().Round()
@@ -94,29 +94,29 @@ func TestVerifC18(t *testing.T) {
 
 func TestVerifC21(t *testing.T) {
 	cmonRun(t, cmonSpec{prop: "C21", part: "minbalance", profile: "apps", stream: 21,
-		owned: map[string]bool{"below-min-balance": true},
-		rule:  "HL histories with opt-in/opt-out churn, payments leaving exactly min balance ±1, app creation with schemas/extra pages, box create/resize, inner payments draining app accounts; after every block each modified non-special, non-empty account must hold at least the minimum balance recomputed independently from the model's resources (assets, apps, schemas, extra pages, boxes) and the protocol constants; distinct = distinct resource-count vectors of accounts within 1000 µAlgos of their minimum",
+		owned:   map[string]bool{"below-min-balance": true},
+		rule:    "HL histories with opt-in/opt-out churn, payments leaving exactly min balance ±1, app creation with schemas/extra pages, box create/resize, inner payments draining app accounts; after every block each modified non-special, non-empty account must hold at least the minimum balance recomputed independently from the model's resources (assets, apps, schemas, extra pages, boxes) and the protocol constants; distinct = distinct resource-count vectors of accounts within 1000 µAlgos of their minimum",
 		require: map[string]int64{"audit.minbalance_checked": 300, "audit.within_1000_of_min": 2}})
 }
 
 func TestVerifC22Supply(t *testing.T) {
 	cmonRun(t, cmonSpec{prop: "C22", part: "supply", profile: "assets", stream: 22,
-		owned: map[string]bool{"asset-supply": true},
-		rule:  "HL histories weighted toward the asset lifecycle (create incl. total 2^64-1 and default-frozen, opt-in, transfer of 0/1/all/all+1, clawback, freeze, close-out incl. to creator, reconfigure, destroy); after every block, for every asset it touched that is still live, the sum of all holdings must equal the asset's Total; distinct = distinct multisets of transaction kinds per block",
+		owned:   map[string]bool{"asset-supply": true},
+		rule:    "HL histories weighted toward the asset lifecycle (create incl. total 2^64-1 and default-frozen, opt-in, transfer of 0/1/all/all+1, clawback, freeze, close-out incl. to creator, reconfigure, destroy); after every block, for every asset it touched that is still live, the sum of all holdings must equal the asset's Total; distinct = distinct multisets of transaction kinds per block",
 		require: map[string]int64{"audit.asset_supply_checked": 100, "gen.accepted:aclose": 2, "gen.accepted:aclawback": 2}})
 }
 
 func TestVerifC23(t *testing.T) {
 	cmonRun(t, cmonSpec{prop: "C23", part: "accounting", profile: "apps", stream: 23,
-		owned: map[string]bool{"box-accounting": true, "schema-totals": true, "resource-counts": true, "global-exceeds-schema": true, "local-exceeds-schema": true},
-		rule:  "HL histories weighted toward apps: box create/resize/replace/delete/delete-and-recreate, box sizes 0..300, global/local puts of both types up to the schema limit (type changes uint<->bytes), opt-in/close-out/clear, app delete with boxes left; after every block, for every touched account: TotalBoxes/TotalBoxBytes equal count/Σ(len name+len value) of the app's boxes in kv, TotalAppSchema equals the sum over created and opted-in apps, resource counters equal recounts, stored global/local state within schema; distinct = distinct multisets of transaction kinds per block",
+		owned:   map[string]bool{"box-accounting": true, "schema-totals": true, "resource-counts": true, "global-exceeds-schema": true, "local-exceeds-schema": true},
+		rule:    "HL histories weighted toward apps: box create/resize/replace/delete/delete-and-recreate, box sizes 0..300, global/local puts of both types up to the schema limit (type changes uint<->bytes), opt-in/close-out/clear, app delete with boxes left; after every block, for every touched account: TotalBoxes/TotalBoxBytes equal count/Σ(len name+len value) of the app's boxes in kv, TotalAppSchema equals the sum over created and opted-in apps, resource counters equal recounts, stored global/local state within schema; distinct = distinct multisets of transaction kinds per block",
 		require: map[string]int64{"audit.schema_checked": 100, "gen.accepted:box": 30, "audit.global_state_full": 1}})
 }
 
 func TestVerifC12(t *testing.T) {
 	cmonRun(t, cmonSpec{prop: "C12", part: "totals", profile: "status", stream: 12,
-		owned: map[string]bool{"totals-vs-sum": true, "totals-vs-lookup-sum": true},
-		rule:  "HL histories rich in status changes (keyreg online/offline/non-participating, closes of online accounts, key expirations, suspensions, rewards-level changes, accounts crossing reward-unit boundaries) under PRNG schedules (commits, reloads); after every block, for EVERY round the ledger still serves, Totals(rnd) must equal the sums recomputed over the closed address universe, and (sampled) the sums obtained through LookupWithoutRewards of every address; distinct = distinct (block kind multiset) and (round location) pairs",
+		owned:   map[string]bool{"totals-vs-sum": true, "totals-vs-lookup-sum": true},
+		rule:    "HL histories rich in status changes (keyreg online/offline/non-participating, closes of online accounts, key expirations, suspensions, rewards-level changes, accounts crossing reward-unit boundaries) under PRNG schedules (commits, reloads); after every block, for EVERY round the ledger still serves, Totals(rnd) must equal the sums recomputed over the closed address universe, and (sampled) the sums obtained through LookupWithoutRewards of every address; distinct = distinct (block kind multiset) and (round location) pairs",
 		require: map[string]int64{"c12.rounds_checked": 300, "c12.lookup_sums": 20, "gen.accepted:keyreg": 10},
 		extra:   c12Check})
 }
